@@ -43,6 +43,9 @@ type ModeResult struct {
 	Changes   []schema.Change
 	Before    *Dump
 	After     *Dump
+	TieCase   string
+	TieObs    []string
+	TieSkip   string
 }
 
 var errClasses = []struct{ re, cls string }{
@@ -137,6 +140,13 @@ func runMode(ctx context.Context, c *Case, m Mode, dir string) (res ModeResult) 
 		res.Skip = "plan-error"
 		// still apply: an error must leave the database alone
 	}
+	// the model's input: state before, connection state as the plan finds it (OpenTx has
+	// switched enforcement off before BEGIN), the differ's change list
+	fkState, inTx := m.FK, m.Tx != "none"
+	if m.Tx == "file" {
+		fkState = false
+	}
+	res.TieCase, res.TieSkip = tieCase(ctx, before, cur, changes, fkState, inTx)
 	applyErr := applyLikeCLI(ctx, client, changes, m.Tx)
 	res.ErrClass = classify(applyErr)
 	if applyErr != nil {
@@ -150,6 +160,15 @@ func runMode(ctx context.Context, c *Case, m Mode, dir string) (res ModeResult) 
 	res.Before, res.After = before, after
 	in := &oracleIn{ctx: ctx, cur: &c.Cur, des: &c.Des, before: before, after: after, changed: changedTables(changes), applyErr: applyErr, mode: m}
 	res.Verdicts, res.Stats = in.check()
+	if res.Stats["rowid-alias-null-assigned"] > 0 {
+		res.TieSkip = "rowid-alias-null"
+	}
+	if res.TieSkip == "" {
+		res.TieObs = tieObs(before, after, res.ErrClass)
+		if res.TieObs == nil {
+			res.TieSkip = "refusal-not-modelled"
+		}
+	}
 	return
 }
 
@@ -272,7 +291,13 @@ func report(w *out.W, cr caseResult, dbg, viol *os.File) {
 			}
 			continue
 		}
-		w.ImplOnly(id, fmt.Sprintf("edits=%v rows=%d changes=%d plan=%v err=%s", c.Edits, r.Rows, r.NChanges, r.PlanKinds, r.ErrClass))
+		if r.TieCase != "" && r.TieSkip == "" {
+			w.Case(id, r.TieCase, r.TieObs)
+			w.Count("tie:compared")
+		} else {
+			w.ImplOnly(id, fmt.Sprintf("edits=%v rows=%d changes=%d plan=%v err=%s", c.Edits, r.Rows, r.NChanges, r.PlanKinds, r.ErrClass))
+			w.Count("tie:skip-" + r.TieSkip)
+		}
 		w.Count("mode:" + r.Mode.String())
 		if r.NChanges == 0 {
 			w.Count("no-changes")
